@@ -9,6 +9,10 @@ import "sync/atomic"
 // by a timer inside Run only). With gc set it also does what Run does after a
 // timer-driven flush when RemoveUntraceableBlocks is on.
 func (bc *Blockchain) VerifPersist(gc bool) error {
+	return bc.verifPersist(gc, nil)
+}
+
+func (bc *Blockchain) verifPersist(gc bool, between func()) error {
 	var oldPersisted uint32
 
 	if gc && bc.config.RemoveUntraceableBlocks {
@@ -18,10 +22,21 @@ func (bc *Blockchain) VerifPersist(gc bool) error {
 	if err != nil {
 		return err
 	}
+	if between != nil {
+		between()
+	}
 	if gc && bc.config.RemoveUntraceableBlocks {
 		bc.tryRunGC(oldPersisted)
 	}
 	return nil
+}
+
+// VerifPersistWith is VerifPersist with something happening between the flush
+// and the garbage collection of the same timer round (Run does the two one
+// after the other with nothing keeping blocks and headers from being accepted
+// in between).
+func (bc *Blockchain) VerifPersistWith(gc bool, between func()) error {
+	return bc.verifPersist(gc, between)
 }
 
 // VerifPersistedHeight returns the height of the last flushed block.
